@@ -12,9 +12,15 @@
      bw_state super pts k = the triangulation before insertion k; old_at n k j = "j < k or j is a super
                       vertex"; sup_in P n p = p strictly inside the clockwise triangle (n, n+1, n+2) of P;
      edge_closed n T = every directed edge of a triangle of T is an edge of the super triangle
-                      (n, n+1, n+2) or its reverse is an edge of a triangle of T. *)
+                      (n, n+1, n+2) or its reverse is an edge of a triangle of T.
+   Round 4 (Tri/DelaunayChar.v):
+     gp_strong P    = any three different entries of P are not collinear and any four are not concyclic,
+     is_dt P old t  = the corners of t are old, t is strictly clockwise and no old point lies strictly
+                      inside its circumcircle (the algorithm's determinant),
+     rot_eq t u     = u is t, rot t or rot (rot t) (a triangle is a cyclic triple). *)
 From Coq Require Import List ZArith QArith Bool Arith Permutation Lia.
-From PF Require Import Tri.Delaunay Tri.DelaunayProofs Tri.BowyerWatson Tri.BowyerWatsonProofs.
+From PF Require Import Tri.Delaunay Tri.DelaunayProofs Tri.BowyerWatson Tri.BowyerWatsonProofs
+  Tri.DelaunayChar Tri.BowyerWatsonComplete.
 Import ListNotations.
 Open Scope Q_scope.
 
@@ -89,7 +95,77 @@ Theorem super_refuted :
 Proof. exact super_pinned_refuted. Qed.
 Print Assumptions super_refuted.
 
-(* ---- 6. Delaunay.  Full statement (NOT proved):
+(* ---- 6.0 (round 4) THE STATEMENT OF THE PROPERTY, for the model of /repo HEAD: three or more points,
+   point array (input ++ super triangle) in strong general position ==> only input indices, all triangles
+   strictly clockwise, open interiors pairwise disjoint, no input point strictly inside a circumcircle.
+   No hypothesis about the run is left: edge closure (M1 below) and non-overlap (M2 below) are proved.
+   What the hypothesis adds to the statement's "general position": the three super-triangle vertices
+   take part (no input point on a line through two of them / on a circle through ...), a measure-zero
+   restriction that is decidable (gp_strong_decidable) and evaluated per model-compared input. *)
+Theorem bw_delaunay : forall pts ts,
+  (3 <= length pts)%nat -> gp_strong (pts ++ super_fixed pts) -> bw pts = Some ts ->
+  delaunay_spec pts ts.
+Proof. exact bw_delaunay_proof. Qed.
+Print Assumptions bw_delaunay.
+
+(* ... under every order in which the n+1 loops may walk the Go map *)
+Theorem bw_delaunay_any_map_order : forall sched pts ts,
+  (forall k T, Permutation (sched k T) T) ->
+  (3 <= length pts)%nat -> gp_strong (pts ++ super_fixed pts) ->
+  bw_with_sched sched super_fixed pts = Some ts -> delaunay_spec pts ts.
+Proof. exact bw_delaunay_sched_proof. Qed.
+Print Assumptions bw_delaunay_any_map_order.
+
+(* (M1) closed: the combinatorial hypothesis of bw_delaunay_partial holds at every step *)
+Theorem bw_edge_closure : forall pts,
+  (3 <= length pts)%nat -> gp_strong (pts ++ super_fixed pts) ->
+  forall k, (k < length pts)%nat -> edge_closed (length pts) (bw_state super_fixed pts k).
+Proof. exact bw_closed_run_proof. Qed.
+Print Assumptions bw_edge_closure.
+
+(* the run, exactly: before insertion k the map holds — up to rotation of a triple, each once, no
+   directed edge twice — precisely the Delaunay triangles of the points inserted so far (super vertices
+   included) *)
+Theorem bw_states_exact : forall pts k,
+  (3 <= length pts)%nat -> gp_strong (pts ++ super_fixed pts) -> (k <= length pts)%nat ->
+  let P := pts ++ super_fixed pts in
+  let T := bw_state super_fixed pts k in
+  (forall t, In t T -> is_dt P (old_at (length pts) k) t) /\
+  (forall t, is_dt P (old_at (length pts) k) t -> exists t', rot_eq t t' /\ In t' T) /\
+  (forall t g e, In t T -> In g T -> In e (edges t) -> In e (edges g) -> t = g) /\ NoDup T.
+Proof. exact bw_states_exact_proof. Qed.
+Print Assumptions bw_states_exact.
+
+(* the output, exactly: a triangle over input indices is returned (as one of its rotations) iff it is
+   strictly clockwise and neither an input point NOR A VERTEX OF THE SUPER TRIANGLE lies strictly inside
+   its circumcircle.  This is the precise form of the known finding
+   triangulation:finite-super-triangle-drops-hull-triangles: a Delaunay triangle of the input is
+   missing from the result iff a super-triangle vertex lies inside its circumcircle. *)
+Theorem bw_output_exact : forall pts ts t,
+  (3 <= length pts)%nat -> gp_strong (pts ++ super_fixed pts) -> bw pts = Some ts ->
+  idx_ok (length pts) t ->
+  ((exists t', rot_eq t t' /\ In t' ts) <->
+   gorient (resolve pts t) < 0 /\
+   forall j, (j < length pts + 3)%nat ->
+     0 <= gincircle (resolve pts t) (nth j (pts ++ super_fixed pts) pzero)).
+Proof. exact bw_output_exact_proof. Qed.
+Print Assumptions bw_output_exact.
+
+Theorem gp_strong_decidable : forall P, gp_strongb P = true -> gp_strong P.
+Proof. exact gp_strongb_ok. Qed.
+Print Assumptions gp_strong_decidable.
+
+(* two different clockwise triangles whose circumcircles are empty of each other's corners have
+   disjoint interiors (radical-axis argument as one polynomial identity, incircle_bary) — stated for the
+   states of the run *)
+Theorem bw_states_disjoint : forall pts k t u,
+  (3 <= length pts)%nat -> gp_strong (pts ++ super_fixed pts) -> (k <= length pts)%nat ->
+  In t (bw_state super_fixed pts k) -> In u (bw_state super_fixed pts k) -> t <> u ->
+  forall x, ~ (Inside (resolve (pts ++ super_fixed pts) t) x /\ Inside (resolve (pts ++ super_fixed pts) u) x).
+Proof. exact bw_states_disjoint_proof. Qed.
+Print Assumptions bw_states_disjoint.
+
+(* ---- 6. Delaunay, the layer lemmas and the earlier conditional forms (rounds 1-3).  Then-open statement:
 
      Theorem bw_delaunay : forall pts ts,
        (3 <= length pts)%nat -> general_position pts -> bw pts = Some ts ->
@@ -112,7 +188,13 @@ Print Assumptions super_refuted.
         indices with empty circumcircles (in the sense of the specification: no centre/radius with
         the corners on and an input point strictly inside the circle), GIVEN ONLY closed_run: edge
         closure at every step.
-   Missing for the full statement (named precisely):
+   ROUND 4: bw_delaunay above proves the full statement under gp_strong; (M1) and (M2) below are closed
+   by bw_edge_closure and the non-overlap conjunct of bw_delaunay (proof: Tri/BowyerWatsonComplete.v —
+   the state is characterised as THE Delaunay triangulation of the inserted points; the neighbour
+   behind an edge is the extremal point of the pencil of circles through the edge).  The _partial
+   theorems below are kept under their names; they hold for every super-triangle construction and
+   without general position, which bw_delaunay does not.
+   What was missing before round 4 (named precisely):
    (M1) closed_run itself, i.e. that an insertion preserves edge closure.  insert_keeps_closed_partial
         below proves the preservation GIVEN edge_unique (no directed edge belongs to two triangles)
         and boundary_chains (for every boundary edge (u,v) of the cavity some boundary edge starts
@@ -249,11 +331,13 @@ Example c20_example :
   (3 <= length six_points)%nat /\ general_position six_points /\
   gorient (super_gtri super_fixed six_points) < 0 /\ cavities_ok super_fixed six_points /\
   closed_run super_fixed six_points /\
+  gp_strong (six_points ++ super_fixed six_points) /\
   option_map (delaunayb six_points) (bw six_points) = Some true /\
   option_map (@length tri) (bw_with_sched (fun _ T => rev T) super_fixed six_points) = Some 6%nat.
 Proof.
   split; [simpl; lia|]. split; [apply general_positionb_ok; vm_compute; reflexivity|].
   split; [vm_compute; reflexivity|]. split; [apply cavities_okb_ok; vm_compute; reflexivity|].
   split; [apply closed_runb_ok; vm_compute; reflexivity|].
+  split; [apply gp_strongb_ok; vm_compute; reflexivity|].
   split; vm_compute; reflexivity.
 Qed.
